@@ -5,4 +5,6 @@ cd "$(dirname "$0")"
 export GOFLAGS=-mod=mod GOPROXY=off GOSUMDB=off GOTOOLCHAIN=local
 mkdir -p bin evidence replays
 go build -o bin/vcheck ./cmd/vcheck
+# warm the build cache for the instrumented explorer and the -race companion binary of C07 (scratch output is deleted)
+VERIF_DIR="$PWD" VERIF_REPO_DIR="${VERIF_REPO:-/repo}" ./bin/vcheck C07 --worker prebuild
 echo "setup ok"
